@@ -244,6 +244,55 @@ def run_base(b: Batch):
             b.violation("base-mismatch", f"LoggingEventHandler: on_any_event calls {seen} for {cls.__name__}", witness={"cls": cls.__name__})
 
 
+def run_rebind(b: Batch):
+    """The callback named by the event's type is whatever handler.on_<type> is when the event is dispatched: callbacks
+    re-bound on the instance, on the class, or restored after earlier dispatches are followed (no stale cache)."""
+    from watchdog import events as ev
+
+    for base in (ev.FileSystemEventHandler, ev.PatternMatchingEventHandler, ev.RegexMatchingEventHandler):
+        for order in range(3):
+            Rec = recording(base)
+            h = Rec()
+            classes = event_classes()
+            if order == 1:
+                classes = classes[::-1]
+            for cls in classes:
+                e = mk_event(cls, "/a/x.py", "/a/z.py")
+                judge_dispatch(b, h, e, "dispatch", "base", ("rebind-warm", base.__name__, cls.__name__), counter="rebind_verdicts")
+            for cls in classes:
+                name = f"on_{cls.event_type}"
+                got = []
+                # 1. instance attribute
+                setattr(h, name, lambda event, got=got: got.append(("inst", event)))
+                e = mk_event(cls, "/a/x.py", "/a/z.py")
+                h.dispatch(e)
+                calls = [n for n, _ in h.take()]
+                b.count("rebind_verdicts")
+                if calls != ["on_any_event"] or got != [("inst", e)]:
+                    b.violation("base-mismatch", f"{base.__name__}: {name} re-bound on the instance after earlier dispatches; "
+                                f"dispatch called {calls} and the new callback {len(got)} time(s) for {cls.__name__}",
+                                witness={"base": base.__name__, "cls": cls.__name__, "step": "instance"})
+                delattr(h, name)
+                # 2. class attribute replaced
+                got2 = []
+                old = Rec.__dict__[name]
+                setattr(Rec, name, lambda self, event, got2=got2: got2.append(event))
+                e = mk_event(cls, "/a/x.py", "/a/z.py")
+                h.dispatch(e)
+                calls = [n for n, _ in h.take()]
+                b.count("rebind_verdicts")
+                if calls != ["on_any_event"] or got2 != [e]:
+                    b.violation("base-mismatch", f"{base.__name__}: {name} replaced on the class after earlier dispatches; "
+                                f"dispatch called {calls} and the new callback {len(got2)} time(s) for {cls.__name__}",
+                                witness={"base": base.__name__, "cls": cls.__name__, "step": "class"})
+                setattr(Rec, name, old)
+                # 3. restored: the original is called again
+                e = mk_event(cls, "/a/x.py", "/a/z.py")
+                judge_dispatch(b, h, e, "dispatch", "base", ("rebind-restored", base.__name__, cls.__name__), counter="rebind_verdicts")
+            b.case()
+            b.nontrivial(repr(("rebind", base.__name__, order)))
+
+
 def run_filters(b: Batch, stride, offset):
     from watchdog.utils.patterns import filter_paths, match_any_paths
 
@@ -361,6 +410,7 @@ def run_batch(spec):
     k = spec["kind"]
     if k == "base":
         run_base(b)
+        run_rebind(b)
     elif k == "pattern":
         run_pattern_product(b, spec["stride"], spec["offset"], regex=False)
     elif k == "regex":
